@@ -36,7 +36,7 @@ TEXT = {
         "technique": "deterministic simulation: command exit statuses injected through control scripts at any position of seeded histories",
         "design_ref": "DESIGN.md section 5 C09",
         "level_text": "Seeded histories over 1-4 tasks x 1-2 commands where control scripts make any command exit with a status from {1,2,127,128,255} or random 1..255, in requested tasks and dependencies, under plain/--quiet/--json/--force, followed by further runs: the invocation must fail, the error must name a task that really executed a failing command, and a task whose latest execution failed is never reported skipped unless the model allows it.",
-        "level_note": "Trusted: in-process invocation: 'exits non-zero' is observed as Execute() returning an error, which main.go maps to exit status 1 (6 lines not executed in-process).",
+        "level_note": "Trusted: at level L2 'exits non-zero' is observed as Execute() returning an error; 1 case in 40 (quick) / 20 (thorough) is repeated at level L3 against the real binary, where the process exit status and stderr are observed directly (cmd/spok/main.go included).",
     },
     "C14": {
         "technique": "deterministic simulation: --force drawn at any position of seeded histories, reference model as oracle",
@@ -54,7 +54,7 @@ TEXT = {
         "technique": "deterministic simulation with crash/torn-write enumeration: dry run lists every crash point and cache write, then kill at each point and at byte prefixes of each write, then seeded continuations judged by the reference model",
         "design_ref": "DESIGN.md section 5 C10, section 3.4",
         "level_text": "Fault enumeration per sampled history: for every generated prefix the killed invocation is first run dry to list all crash points (cache.init.*, run.task.before/after, task.cmd.before/after, run.dump.before/after) and all cache writes; it is then repeated from the same disk snapshot once per crash point and once per byte prefix of each cache write (quick: k in {0,1,len/2,len-1,len}+4 seeded; thorough: every k for a third of the cases), dying there or (1 in 3) returning ENOSPC/EIO; each is followed by 2-3 continuations of edits/reverts and unforced runs. A later reported skip must be legal w.r.t. last[] updated with what completed before the kill, a later failure must mention the cache. Exhaustive over crash points per history, sampling over histories.",
-        "level_note": "Trusted: kill = sentinel panic at a simhook.Point (deferred calls run but write no project state); torn write = O_TRUNC + k bytes, as os.WriteFile would leave it; no power-loss semantics.",
+        "level_note": "Trusted: at level L2 kill = sentinel panic at a simhook.Point (deferred calls run but write no project state) and torn write = O_TRUNC + k bytes, as os.WriteFile would leave it; 1 case in 15 (quick) / 5 (thorough) is repeated at level L3 with a real SIGKILL sent from inside every command position of the run (kill -9 $$) and cache.json truncated between invocations. No power-loss semantics.",
     },
     "C17": {
         "technique": "deterministic simulation: seeded directory chains, bounded-liveness step budget at the ReadDir seam, ReadDir failure injection",
